@@ -129,6 +129,7 @@ class CtxEngine(object):
         self.bmp_arrivals = []
         self.judged = 0
         self.ctx_pool = {"mc": [], "bmp": []}
+        self.hiccup_armed = False
 
     # -- board model ---------------------------------------------------------
     def board_eth_of(self, x, y):
@@ -226,10 +227,97 @@ class CtxEngine(object):
 
     # -- capture -------------------------------------------------------------
     def on_tx(self, sock, payload):
+        if sock.peer[1] != 17893:
+            return                  # boot datagrams
         self.sent.append((sock.peer[0], wire.parse_scp(payload)))
 
     def on_command(self, chip, r, ip):
         self.arrivals.append((ip, r))
+        if self.hiccup_armed and r.cmd == 0 and \
+                self.w.sim.now < self.m.p2p_unknown_until:
+            self.hiccup_armed = False
+            self.w.sim.after(0.01, self.hiccup_down)
+
+    # -- a machine that this controller boots itself ---------------------------
+    def boot_first(self):
+        """The machine starts unbooted and the controller under test boots it
+        before anything else (real ``MachineController.boot`` and
+        ``boot.boot`` against a boot-ROM endpoint on the root board).  In one
+        run in three the machine has a *hiccup*: having answered a first
+        post-boot poll while it does not know its position yet (it reports
+        (255, 255)), it is silent for longer than rig waits and then comes up
+        for good.  ``boot`` then fails with the boot error; the caller carries
+        on with the machine once it is up.  Whatever happened during the boot,
+        every later command must go where the caller says."""
+        t, w, c, m = self.t, self.w, self.c, self.m
+        w.probe("boot_before_use")
+        m.booted = False
+        hiccup = t.draw(3) == 0
+        boot_time = 1.9 if hiccup else [0.5, 1.5, 1.9][t.draw(3)]
+        unknown_for = 1.0 if hiccup else [0.0, 0.25, 1.0][t.draw(3)]
+        quiet_for = 2 * c.n_tries * (c.timeout + 0.1) + 1.0
+        st = {"blocks": {}, "n": None}
+
+        def up():
+            m.booted = True
+            m.p2p_unknown_until = w.sim.now + unknown_for
+            self.hiccup_armed = hiccup
+            w.trace.ev("machine-booted")
+
+        def up_again():
+            m.booted = True
+            w.trace.ev("machine-up-again")
+
+        def down():
+            m.booted = False
+            w.probe("boot_hiccup")
+            w.trace.ev("machine-silent")
+            w.sim.after(quiet_for, up_again)
+        self.hiccup_down = down
+
+        def rom(payload, reply, sock):
+            if m.booted:
+                return
+            p = wire.parse_boot(payload)
+            if p is None:
+                return
+            _ver, cmd, a1, _a2, a3, data, _tail = p
+            if cmd == 1:
+                st["blocks"], st["n"] = {}, a3 + 1
+            elif cmd == 3:
+                st["blocks"][a1 & 0xff] = data
+            elif cmd == 5:
+                if st["n"] is not None and \
+                        sorted(st["blocks"]) == list(range(st["n"])):
+                    w.sim.after(boot_time, up)
+                st["n"] = None
+        c.net.register(self.root_ip, 54321, rom)
+        was = c.policy.active
+        quiet = bool(t.draw(3))
+        if quiet:
+            c.policy.active = False
+        status, val = rigcall(w, (c.mcmod.SpiNNakerBootError,
+                                  c.scp.TimeoutError,
+                                  c.scp.FatalReturnCodeError), c.mc.boot)
+        c.policy.active = was
+        self.hiccup_armed = False
+        w.sim.drain(quiet_for + 4.0)
+        if status == "ok" and val is not True:
+            w.violate("BOOT", "boot() of an unbooted machine returned %r"
+                      % (val,), kind="boot-result")
+        if quiet and not hiccup and not (status == "ok" and m.booted):
+            w.violate("BOOT", "boot() over a quiet network ended in %s and the "
+                      "machine is %sbooted"
+                      % ("%s: %s" % (type(val).__name__, val)
+                         if status == "exc" else repr(val),
+                         "" if m.booted else "not "), kind="boot-failed")
+        # somebody else gets the machine up if this boot did not
+        m.booted = True
+        for s in c.net.sockets:
+            s.inbox.clear()
+        return "%s%s:%s" % ("quiet" if quiet else "faulty",
+                            "+hiccup" if hiccup else "",
+                            val if status == "ok" else type(val).__name__)
 
     # -- resolver --------------------------------------------------------
     def ctx_value(self, stack, name):
@@ -849,6 +937,8 @@ class CtxEngine(object):
 
         def on_tx(sock, payload):
             orig_on_tx(sock, payload)
+            if sock.peer[1] != 17893:
+                return
             self.all_tx.append((sock.peer[0], wire.parse_scp(payload)))
         c.net.on_tx = on_tx
         try:
@@ -891,6 +981,7 @@ class CtxEngine(object):
                     c.net.endpoints.pop((m.chips[e].ip, 17893), None)
                     w.probe("ethernet_up_but_unreachable")
             stack = {"mc": [dict(init_ctx)], "bmp": [dict(bctx)]}
+            booted = self.boot_first() if t.draw(6) == 0 else "already"
             discovered = "no"
             if t.draw(4):
                 was = c.policy.active
@@ -930,11 +1021,12 @@ class CtxEngine(object):
                                   "Ethernet link" % (n, up),
                                   kind="discover-count")
             w.ops.append("config boards=%d root=%r dims=%dx%d eth_down=%d "
-                         "discovered=%s init_ctx=%r bmp=%r %s"
+                         "booted=%s discovered=%s init_ctx=%r bmp=%r %s"
                          % (len(self.eth_positions), m.root, m.width,
                             m.height, sum(1 for e in self.eth_positions
                                           if not m.chips[e].eth_up),
-                            discovered, init_ctx, sorted(self.bmp_hosts),
+                            booted, discovered, init_ctx,
+                            sorted(self.bmp_hosts),
                             c.describe()))
             n_ops = t.op_count(1, 12)
             for _ in range(n_ops):
